@@ -5,8 +5,9 @@
    Mirrors, branch for branch and in the same operation order, the code AS IT IS in
      base/vectors.py      iszerovec, iszero, isunitvec, isunittwist, unitvec_norm, unittwist_norm, unittwist2_norm
      base/transformsNd.py iseye, skew, vex, rodrigues
-     base/transforms3d.py trexp (so(3) / se(3), vector form, with and without theta), trlog (SO(3) / SE(3), twist flag)
-     base/transforms2d.py trexp2 (so(2) / se(2))
+     base/transforms3d.py trexp (so(3) / se(3), vector form, with and without theta), trlog (SO(3) / SE(3), twist flag;
+                          atan2 angle and symmetric-part half-turn axis of fix 84bd1d7)
+     base/transforms2d.py trexp2 (so(2) / se(2)), trlog2 (closed form of fix c4462a7)
    The thresholds `k * _eps` are NOT literals here: they are the fields of a [thr] record whose value is
    regenerated from the source AST on every run (coq/gen/Consts_C03.v).
    Python errors are results: [TypeErr] is the `cannot unpack None` that rodrigues raises when
@@ -155,28 +156,41 @@ Definition trlog_so3_branch (Rm : M33 T) : so3_branch :=
   if iseye33 Rm then BrEye
   else if ltb O (abs_ O (trace33 O Rm + 1)) (thv (k_half K)) then BrHalf else BrGen.
 
-(* half-turn branch: w = (R[:,k] + I[:,k]) / sqrt(2 (1 + R[k,k])), k = argmax diag ; result w * pi *)
-Definition halfturn_axis (Rm : M33 T) : V3 T :=
-  let '((a00,_,_),(_,a11,_),(_,_,a22)) := Rm in
-  let k := argmax3 a00 a11 a22 in
-  let mx := diag_k Rm k in
-  let '(c0,c1,c2) := vadd3 O (col33 Rm k) (e_k k) in
-  let d := sqrt_ O (two * (1 + mx)) in
-  (c0/d, c1/d, c2/d).
-Definition halfturn_w (Rm : M33 T) : V3 T :=
-  let '(w0,w1,w2) := halfturn_axis Rm in (w0 * pi_f O, w1 * pi_f O, w2 * pi_f O).
-
-(* general branch: theta = acos((tr - 1)/2) ; skw = (R - R.T) / 2 / sin(theta) ; skw * theta *)
 Definition mdiv33 (A : M33 T) (k : T) : M33 T :=
   let '((a00,a01,a02),(a10,a11,a12),(a20,a21,a22)) := A in
   ((a00/k,a01/k,a02/k),(a10/k,a11/k,a12/k),(a20/k,a21/k,a22/k)).
 Definition mscale33r (A : M33 T) (k : T) : M33 T :=
   let '((a00,a01,a02),(a10,a11,a12),(a20,a21,a22)) := A in
   ((a00*k,a01*k,a02*k),(a10*k,a11*k,a12*k),(a20*k,a21*k,a22*k)).
-Definition log_theta (Rm : M33 T) : T := acos_ O ((trace33 O Rm - 1) / two).
-Definition log_general (Rm : M33 T) : M33 T :=
+
+(* (R - R.T) / 2  and its vex: li = vex((R - R.T)/2) ; c = (tr R - 1)/2 *)
+Definition skewpart (Rm : M33 T) : M33 T := mdiv33 (msub33 O Rm (mtr33 Rm)) two.
+Definition log_li (Rm : M33 T) : V3 T := vex3 O (skewpart Rm).
+Definition log_c (Rm : M33 T) : T := (trace33 O Rm - 1) / two.
+(* base.norm: running sum of squares, then sqrt (= Lin.norm3) ; the rotation angle of both non-identity branches *)
+Definition log_st (Rm : M33 T) : T := norm3 O (log_li Rm).
+Definition log_theta (Rm : M33 T) : T := atan2_ O (log_st Rm) (log_c Rm).
+
+(* half-turn branch (84bd1d7): c = (tr - 1)/2 ; B = (R + R.T)/2 - c*eye(3) ; k = argmax diag B ;
+   w = B[:,k] / sqrt((1 - c) * B[k,k]) ; li = vex((R - R.T)/2) ; theta = atan2(norm(li), c) ;
+   if dot(w, li) < 0: w = -w ;  result w * theta *)
+Definition sympart_minus (Rm : M33 T) (c : T) : M33 T :=
+  msub33 O (mdiv33 (madd33 O Rm (mtr33 Rm)) two) (mscale33 O c (I33 O)).
+Definition halfturn_axis (Rm : M33 T) : V3 T :=
+  let c := log_c Rm in
+  let B := sympart_minus Rm c in
+  let k := (let '((b00,_,_),(_,b11,_),(_,_,b22)) := B in argmax3 b00 b11 b22) in
+  let '(c0,c1,c2) := col33 B k in
+  let d := sqrt_ O ((1 - c) * diag_k B k) in
+  let w := (c0/d, c1/d, c2/d) in
+  if ltb O (dot3 O w (log_li Rm)) 0 then vneg3 O w else w.
+Definition halfturn_w (Rm : M33 T) : V3 T :=
   let th := log_theta Rm in
-  mscale33r (mdiv33 (mdiv33 (msub33 O Rm (mtr33 Rm)) two) (sin_ O th)) th.
+  let '(w0,w1,w2) := halfturn_axis Rm in (w0 * th, w1 * th, w2 * th).
+
+(* general branch (84bd1d7): skw = (R - R.T)/2 ; st = norm(vex(skw)) ; theta = atan2(st, (tr - 1)/2) ; skw / st * theta *)
+Definition log_general (Rm : M33 T) : M33 T :=
+  mscale33r (mdiv33 (skewpart Rm) (log_st Rm)) (log_theta Rm).
 
 (* trlog(R, twist=False) and trlog(R, twist=True) for a 3x3 argument *)
 Definition trlog_so3_mat (Rm : M33 T) : M33 T :=
@@ -239,6 +253,22 @@ Definition trexp2_se2 (tw : V3 T) : res (M33 T) :=
 Definition trexp2_se2_th (tw : V3 T) (th : T) : res (M33 T) :=
   if iszerovec3 tw then Ok (I33 O)
   else if isunittwist2 tw then Ok (trexp2_unit tw th) else ValueErr.
+
+(* ---------------- transforms2d.trlog2 (c4462a7: closed form) ---------------- *)
+Definition iseye22 (A : M22 T) : bool :=
+  let '((a,b),(c,d)) := A in ltb O (sqrt_ O ((a-1)*(a-1) + b*b + c*c + (d-1)*(d-1))) (thv (k_eye K)).
+Definition trlog2_theta (T10 T00 : T) : T := atan2_ O T10 T00.
+(* trlog2(R, twist=True) for a 2x2 argument: no identity test *)
+Definition trlog2_so2 (Rm : M22 T) : T := let '((r00,_),(r10,_)) := Rm in trlog2_theta r10 r00.
+(* trlog2(T, twist=True) for a 3x3 argument: (v, theta) ; a = 1 if theta == 0 else b/tan(b), b = theta/2 ; v = [[a,b],[-b,a]] t *)
+Definition trlog2_se2_tw (Tm : M33 T) : V3 T :=
+  if iseye33 Tm then (0,0,0)
+  else
+    let '((t00,_,tx),(t10,_,ty),_) := Tm in
+    let th := trlog2_theta t10 t00 in
+    let b := th / two in
+    let a := if eqb O th 0 then 1 else b / tan_ O b in
+    (a*tx + b*ty, (- b)*tx + a*ty, th).
 End Model.
 
 Create HintDb c03 discriminated.
@@ -246,5 +276,5 @@ Create HintDb c03 discriminated.
   isunittwist2 unitvec_norm3 unitvec_norm1 unittwist_norm unittwist2_norm fro33 fro44 msub44 iseye33 iseye44 skew1
   madd22 mscale22 rodrigues_cs rodrigues_th rodrigues1_cs rodrigues1_th rodrigues3 rodrigues3_with rodrigues1
   rodrigues1_with trexp_so3 trexp_so3_th Vmat_cs Vmat trexp_unit trexp_se3 trexp_se3_th argmax3 diag_k e_k
-  trlog_so3_branch halfturn_axis halfturn_w mdiv33 mscale33r log_theta log_general trlog_so3_mat trlog_so3_tw Ginv
+  trlog_so3_branch skewpart log_li log_c log_st sympart_minus halfturn_axis halfturn_w mdiv33 mscale33r log_theta log_general iseye22 trlog2_theta trlog2_so2 trlog2_se2_tw trlog_so3_mat trlog_so3_tw Ginv
   trlog_se3_branch trlog_se3_tw Ab2M trlog_se3_mat trexp2_so2 Vmat2 trexp2_unit trexp2_se2 trexp2_se2_th : c03.
